@@ -228,6 +228,9 @@ pub fn run_line(line: &str, out: &mut String) {
         Some((h, e)) => (h.trim(), e),
         None => (line.trim(), ""),
     };
+    if head.ends_with("_async") {
+        return crate::m_obs_async::run_line(line, out);
+    }
     let ops: Vec<&str> = evs.split(" ; ").map(|s| s.trim()).filter(|s| !s.is_empty()).collect();
     let use_guard = head == "guard";
     let mut unique: Option<Observable<Val>> = None;
